@@ -34,6 +34,10 @@ def run(ctx):
             for inp in (proggen.INPUTS if ctx.tier == 'thorough' else ['-', '(i 5)', 'F']):
                 for st in (progsuite.STORES if ctx.tier == 'thorough' else [progsuite.STORES[k % 2]]):
                     pmeta[progsuite.prog_case(prog_cases, st, src, inp, progsuite.HOSTS[k % len(progsuite.HOSTS)], ast)] = 'logic'
+        for k, (name, root) in enumerate(proggen.tester_shapes()):
+            src, ast = proggen.pp(root), proggen.program_term(root)
+            for st in progsuite.STORES:
+                pmeta[progsuite.prog_case(prog_cases, st, src, '(i 5)', progsuite.HOSTS[k % len(progsuite.HOSTS)], ast)] = 'testers'
     ctx.evaluations = len(cases) + len(prog_cases)
     if not h_ok:
         return
@@ -74,7 +78,7 @@ def run(ctx):
     ctx.exhaustive = True
     ctx.rule = ('every testing instruction (JumpIfTrue, JumpIfFalse, And, Or, Not, Tis; Xor on all ordered pairs) x every value type with empty and non-empty representatives x both stores x 3 host modes, exhaustive; '
                 'oracle: taken/fall-through, pushed boolean and register delta follow truthy(v) = v not in {unit, $!}; distinct = distinct (instr, A, B).'
-                + (' Program level (PROG): every combination of (&&, ||, ?>, !>, else-chain arm / middle arm / final arm, two-level nestings) x (left operand truthy / $! / unit / $) x (operand or arm ending in an atom, ??, !!, arithmetic, an inner else-chain arm or final arm with and without ??, an inner && / ||, a conditional, a call, a list, a pair, an identifier) run through the real pipeline and compared with evalF: value and host-call trace.' if prog_cases else ''))
+                + (' Program level (PROG): every combination of (&&, ||, ?>, !>, else-chain arm / middle arm / final arm, two-level nestings) x (left operand truthy / $! / unit / $) x (operand or arm ending in an atom, ??, !!, arithmetic, an inner else-chain arm or final arm with and without ??, an inner && / ||, a conditional, a call, a list, a pair, an identifier), and every testing construct (??, !!, ?>, !>, && and || on either side, ^^ on either side, a middle else-chain arm) applied without parentheses to a value written with an operator (range, pair, lists, concatenation, arithmetic, comparison, access, prefix / suffix operators, calls, partial application, nested testers; true values of every composite type and the false / unit results of operators), run through the real pipeline and compared with evalF: value and host-call trace.' if prog_cases else ''))
     ctx.suites['OP.testers'] = len(cases)
     for c, ri, rm, skip in rows[:: max(1, len(rows) // 6)][:6]:
         ctx.sample({'case': c[2:], 'impl': ri, 'model': rm}, cap=80)
